@@ -23,6 +23,9 @@ fn main() {
     if args.len() < 2 || (args.len() < 3 && args[1] != "__pin-charsets") {
         usage();
     }
+    if args[1] == "__c05-worker" {
+        props::c05::worker_main();
+    }
     if args[1] == "__pin-charsets" {
         let root = std::env::var("VERIF_ROOT").map(PathBuf::from).unwrap_or_else(|_| PathBuf::from("/verif"));
         match props::c10::pin(&root) {
